@@ -329,6 +329,21 @@ Theorem C04_livermore_outputs_valid : forall (e_inc binding : R) edir relax,
 Proof. exact livermore_outputs_valid. Qed.
 Print Assumptions C04_livermore_outputs_valid.
 
+(** atomic relaxation (transition cascade abstract): every emitted secondary is at or
+    above the production cut of ITS OWN particle type (Auger e-: electron cut,
+    fluorescence photon: gamma cut), unit directions, and the energy of the
+    suppressed transitions is deposited locally; energy balance of the whole PE event *)
+Theorem C04_livermore_relax_thresholds_and_deposit :
+  forall (e_inc binding : R) edir (cut_g cut_e : R) trs s r s',
+  canon s -> livermore_relax e_inc binding edir cut_g cut_e trs s = Some (r, s') ->
+  exists el secs, i_secs r = el :: secs /\ s_pid el = PElectron /\ s_energy el = e_inc - binding /\
+    Forall (fun x => sec_cut cut_g cut_e x <= s_energy x /\ unitv (s_dir x) /\
+                     (s_pid x = PElectron \/ s_pid x = PGamma)) secs /\
+    i_deposit r = (binding - tr_energy_sum trs) + relax_suppressed cut_g cut_e trs /\
+    e_inc = sec_energy_sum (i_secs r) + i_deposit r.
+Proof. exact livermore_relax_thresholds_and_deposit. Qed.
+Print Assumptions C04_livermore_relax_thresholds_and_deposit.
+
 (** ** non-vacuity: the hypotheses are satisfiable by concrete states *)
 Example C04_example_kn_ok : kn_ok (1 / 2) (KN 2 1 (V3 0 0 1)).
 Proof. unfold kn_ok, unitv. rewrite dot_R. cbn. repeat split; try lra; field. Qed.
@@ -344,3 +359,12 @@ Example C04_example_bh_ok : bh_ok (BH (1 / 2) 100 (V3 0 0 1) 3 3 (1 / 100)).
 Proof. unfold bh_ok, unitv. rewrite dot_R. cbn. repeat split; try lra; ring. Qed.
 Example C04_example_ep_ok : ep_ok (EP (1 / 2) 10 (V3 1 0 0)) /\ 0 < ep_energy (EP (1 / 2) 10 (V3 1 0 0)).
 Proof. unfold ep_ok, unitv. rewrite dot_R. cbn. repeat split; try lra; ring. Qed.
+Example C04_example_relax : exists r s',
+  livermore_relax 1 (1 / 2) (V3 0 0 1) (1 / 100) (1 / 10) [Tr true (1 / 20); Tr false (1 / 20)] [1 / 2; 1 / 4] = Some (r, s')
+  /\ length (i_secs r) = 2%nat.
+Proof.
+  unfold livermore_relax, relax_emit, bind. cbn [tr_auger tr_energy]. numR.
+  destruct (Rleb_spec (1 / 10) (1 / 20)) as [H|H]; [lra|].
+  destruct (Rleb_spec (1 / 100) (1 / 20)) as [H2|H2]; [|lra].
+  eexists; eexists; split; reflexivity.
+Qed.
